@@ -19,6 +19,9 @@ package plenc
 //@   # the codec found is the one stored under exactly the key (typ, tag), and nothing else is consulted
 //@   ensures[C17] @sync.*Map.Load(br, boxed(plenc.registryKey, typ, tag)).ok ==> result.typ == @sync.*Map.Load(br, boxed(plenc.registryKey, typ, tag)).value.typ && result.data == @sync.*Map.Load(br, boxed(plenc.registryKey, typ, tag)).value.data
 //@   ensures[C17] !@sync.*Map.Load(br, boxed(plenc.registryKey, typ, tag)).ok ==> result == nil
+//@   # registration discipline (RegisterCodec's unwritten precondition): a codec is registered under a type whose calling
+//@   # convention it follows; the registry cannot know, so this is assumed, not proved
+//@   assumedensures[C08] result != nil ==> (mapconv(result) == (@reflect.Type.Kind(typ) == 21))
 
 //@ func plenc.*baseRegistry.Store
 //@   safety C17
@@ -43,6 +46,10 @@ package plenc
 //@   ensures[C17,C08] old(@plenccodec.CodecRegistry.Load(registry, typ, tag)) != nil ==> r1 == nil && r0 == old(@plenccodec.CodecRegistry.Load(registry, typ, tag))
 //@   ensures[C08] r1 == nil ==> r0 != nil
 //@   ensures[C08] r1 != nil ==> r0 == nil
+//@   # calling convention: the codec returned for a map type takes the map itself, every other codec a pointer to the value
+//@   ensures[C08] r1 == nil ==> (mapconv(r0) == (@reflect.Type.Kind(typ) == 21))
+//@   # a pointer wrapper dereferences and hands its codec a pointer to the value: the wrapped codec must not expect a map
+//@   ensures[C08] r1 == nil && old(@plenccodec.CodecRegistry.Load(registry, typ, tag)) == nil && @reflect.Type.Kind(typ) == 22 ==> called_Plenc_CodecForTypeRegistry && !mapconv(call_Plenc_CodecForTypeRegistry_r0)
 //@   # named basic kinds fall back to the codec registered on this instance for the basic type under the same tag
 //@   ensures[C17,C02,C08] old(@plenccodec.CodecRegistry.Load(registry, typ, tag)) == nil && @reflect.Type.Kind(typ) == 1 ==> (r1 == nil) == (old(@plenc.*baseRegistry.Load(p + 8, rtype(bool), tag)) != nil) && (r1 == nil ==> r0 == old(@plenc.*baseRegistry.Load(p + 8, rtype(bool), tag)))
 //@   ensures[C17,C02,C08] old(@plenccodec.CodecRegistry.Load(registry, typ, tag)) == nil && @reflect.Type.Kind(typ) == 2 ==> (r1 == nil) == (old(@plenc.*baseRegistry.Load(p + 8, rtype(int), tag)) != nil) && (r1 == nil ==> r0 == old(@plenc.*baseRegistry.Load(p + 8, rtype(int), tag)))
